@@ -67,12 +67,15 @@ class Write(Contract):
             ip.st.oblige('C12:sendall-only-while-neither-closing-nor-closed(tested under the lock)',
                          And(Not(ip.st.get(W.state, 'closing')), Not(ip.st.get(W.state, 'closed'))), tags=('C12', 'C08'))
             ip.st.oblige('C11:sendall-under-the-session-lock', BoolVal(ip.st.ghost[W.lock.key]['held'] > 0), tags=('C11',))
+
+        def on_sent(ip, sock, b):
             ip.st.ghost['wc'] = Or(wire_has_close(ip.st), b.at(IntVal(0)) % 16 == 8)
 
         def on_release(ip, lock):
             # C12 monitor invariant at every release of the session lock
             ip.st.oblige('C12:monitor@release(Close on the wire => closing or closed)', I12(ip.st, W), tags=('C12',))
         st.ghost['sendall_hook'] = on_sendall
+        st.ghost['sent_hook'] = on_sent
         st.ghost['on_release'] = on_release
         return d
 
@@ -297,6 +300,23 @@ class SendCompressed(_Send):
                 ip.st.heap[W.state.oid].f['compression'] = ref
                 d['compress'] = BoundMethod(ref, Deflate.compress, 'compress')
         return d
+
+    def modifies(self, ip, a):
+        locs = _Send.modifies(self, ip, a)
+        if 'compress' in a and a.compress is not None:
+            locs = locs + [('heap', a.compress.recv, '_compressobj', T.Ext('zcompress'))]
+        return locs
+
+    def raises(self, ip, a, old):
+        specs = _Send.raises(self, ip, a, old)
+        if 'compress' in a and a.compress is not None:
+            for r in specs:
+                # the deflater may already have advanced when the write is refused; the size of
+                # the deflated payload (not of the caller's data) decides FrameBuildError
+                r.modifies = [('heap', a.compress.recv, '_compressobj', T.Ext('zcompress'))]
+                if r.cls is errors.FrameBuildError:
+                    r.when, r.iff = None, False
+        return specs
 
     def result(self, ip, a, old):
         st = ip.st
